@@ -638,3 +638,45 @@ def run_position_from_tokens(prog, tier, repo):
         res.ok('position:none-above-the-lexer', pos_adt[0].file + f':{pos_adt[0].line}', 'token producer and parser build no position of their own')
     res.floor('positions built by the character-level lexer (positive control)', n_lex, 1)
     return [res]
+
+
+# ---------------------------------------------------------------------------------------------------------------------
+# LOC-MODULE (C05 / C14): `Location::union` asserts that both locations belong to the same module, and every consumer
+# compares the module first. Inside the parser a location therefore has to carry the module of the text being parsed: it is
+# a token's location, a copy of one with other positions (struct update / the `module_reference` of an existing
+# location), or a union of such. A location conjured from positions alone (`Location::from_pos`, `dummy`, `full_dummy`)
+# belongs to the dummy module; merged into a real node's location it aborts the parser on recovered input - the unit tests
+# parse under the dummy module, where the difference does not show. Allowed: initialising the parser state itself.
+
+def run_loc_module(prog, tier, repo):
+    res = RuleResult('LOC-MODULE', 'C05/C14: the parser builds no location that belongs to the dummy module - locations come from '
+                     'tokens, from existing locations or from their union')
+    CONJURE = ('Location::from_pos', 'Location::dummy', 'Location::full_dummy', 'Location::document_start')
+    n = 0
+    n_all = 0
+    for b in sorted(prog.bodies.values(), key=lambda x: x.name):
+        if b.crate != 'samlang_parser' or '::tests' in b.name or '_tests::' in b.name:
+            continue
+        for bi, bl in enumerate(b.blocks):
+            t = bl.term
+            if bl.cleanup or t[0] != 'call':
+                continue
+            nm = callee(t)[1] or ''
+            if 'Location::' in nm:
+                n_all += 1
+            if not nm.endswith(CONJURE):
+                continue
+            n += 1
+            k = sum(1 for i in res.instances if i.key.startswith(f'conjured:{b.name}#')) + 1
+            key = f'conjured:{b.name}#{k}'
+            # the parser's own constructor may initialise its cursor with the dummy location
+            is_ctor = b.locals[0].k == 'adt' and 'SourceParser' in b.locals[0].s
+            if is_ctor:
+                res.ok(key, b.loc(t[7]), 'initial value of the parser state')
+            else:
+                res.violation(key, b.loc(t[7]), f'{b.name} builds a location with {nm.split("::")[-1]}: it belongs to the dummy module, '
+                              f'and `Location::union` with a real location of the parsed module asserts - on recovered (invalid) '
+                              f'input the parser aborts instead of reporting the syntax error')
+    res.floor('calls of Location functions in the parser (positive control)', n_all, 10)
+    res.analysed['conjured locations'] = n
+    return [res]
